@@ -2,7 +2,10 @@
 """Regenerates MANIFEST.json from checks.json (single source of truth for what is claimed)."""
 import json, os
 V = os.path.dirname(os.path.abspath(__file__))
-c = json.load(open(os.path.join(V, "checks.json")))
+import importlib.machinery, importlib.util
+_l = importlib.machinery.SourceFileLoader("vcheck", os.path.join(V, "check"))
+_s = importlib.util.spec_from_loader("vcheck", _l); _m = importlib.util.module_from_spec(_s); _l.exec_module(_m)
+c = _m.load_checks()
 props = [json.loads(l)["id"] for l in open(os.path.join(V, "properties.jsonl")) if l.strip()]
 claimed = [x["id"] for x in c["checks"]]
 m = {
